@@ -1,6 +1,309 @@
-//! C08 — not built yet.
-use crate::ev::Tier;
-pub fn main(_tier: Tier, _replay: Option<serde_json::Value>) -> i32 {
-    eprintln!("C08: check not built yet");
-    2
+//! C08 — arithmetic, equality, boolean and selection components are exact.
+
+use dusk_plonk::prelude::*;
+use serde_json::json;
+
+use crate::e2::Gadget;
+use crate::ev::{Run, Tier};
+use crate::fe::*;
+use crate::gadget::*;
+use crate::m1::{self, *};
+use crate::prog::Prog;
+use crate::rows::{self, Real};
+
+fn constraint(q: &[Fe; 6], pi: Option<Fe>, w: [Witness; 4]) -> Constraint {
+    let c = Constraint::new().mult(q[0]).left(q[1]).right(q[2]).output(q[3]).fourth(q[4]).constant(q[5]).a(w[0]).b(w[1]).c(w[2]).d(w[3]);
+    match pi {
+        Some(p) => c.public(p),
+        None => c,
+    }
+}
+
+/// relation of the general gate, stated from the documentation
+fn relation(q: &[Fe; 6], pi: Fe, v: &[Fe; 4]) -> Fe {
+    q[0] * v[0] * v[1] + q[1] * v[0] + q[2] * v[1] + q[3] * v[2] + q[4] * v[3] + q[5] + pi
+}
+
+const WIRINGS: [[usize; 4]; 5] = [[0, 1, 2, 3], [0, 0, 2, 3], [0, 1, 0, 3], [0, 0, 0, 0], [0, 1, 2, 0]];
+
+/// (i) the emitted row of `append_gate` equals the documented one, for every
+/// selector tuple x PI mode x wiring; (iv) model verdicts replayed on the prover.
+fn general_gate(run: &mut Run, tier: Tier) {
+    let sel: Vec<Fe> = tier.pick(vec![zero(), one(), neg1()], vec![zero(), one(), neg1(), fe(2)]);
+    let ns = sel.len();
+    let rho = Rho::new(seed(), 8).next_fe();
+    let pis = [None, Some(zero()), Some(rho)];
+    let vals = [fe(3), fe(5), fe(7), fe(11)];
+    let mut tuples: Vec<[Fe; 6]> = vec![];
+    for t in 0..ns.pow(6) {
+        let mut idx = t;
+        let mut q = [zero(); 6];
+        for k in 0..6 {
+            q[k] = sel[idx % ns];
+            idx /= ns;
+        }
+        tuples.push(q);
+    }
+    // row emission
+    let mut layouts = std::collections::HashSet::new();
+    for q in &tuples {
+        for pi in &pis {
+            for wiring in &WIRINGS {
+                let (q, pi, wiring) = (*q, *pi, *wiring);
+                let p = Prog::new(move |c| {
+                    let ws: Vec<Witness> = vals.iter().map(|v| c.append_witness(*v)).collect();
+                    let w = [ws[wiring[0]], ws[wiring[1]], ws[wiring[2]], ws[wiring[3]]];
+                    c.append_gate(constraint(&q, pi, w));
+                    Ok(())
+                });
+                run.transitions += 1;
+                run.evaluations += 1;
+                let s = match p.run() {
+                    Ok(s) => s,
+                    Err(e) => {
+                        run.violation("general-gate/error", &format!("append_gate failed: {:?}", e), json!({"q": q.iter().map(hex).collect::<Vec<_>>()}));
+                        continue;
+                    }
+                };
+                layouts.insert(m1::layout_key(&s));
+                let row = s.gates.last().unwrap();
+                let mut want = [zero(); 11];
+                want[..6].copy_from_slice(&q);
+                want[QARITH] = one();
+                let base = 2 + 4; // ZERO, ONE and the four dummy-gate witnesses precede user witnesses
+                let want_w = [base + wiring[0], base + wiring[1], base + wiring[2], base + wiring[3]];
+                let pi_rows: Vec<(usize, Fe)> = s.public_inputs.clone();
+                let want_pi: Vec<(usize, Fe)> = match pi {
+                    Some(v) => vec![(s.gates.len() - 1, v)],
+                    None => vec![],
+                };
+                if row.q != want || row.w != want_w || pi_rows != want_pi || s.gates.len() != 5 {
+                    run.violation(
+                        &format!("general-gate/emitted-row-differs/{}", if pi.is_some() { "pi" } else { "nopi" }),
+                        &format!("append_gate emitted q={:?} w={:?} pi={:?}, documented row is q={:?} w={:?} pi={:?}", row.q.iter().map(hex).collect::<Vec<_>>(), row.w, pi_rows.iter().map(|(r, v)| (*r, hex(v))).collect::<Vec<_>>(), want.iter().map(hex).collect::<Vec<_>>(), want_w, want_pi.iter().map(|(r, v)| (*r, hex(v))).collect::<Vec<_>>()),
+                        json!({"q": q.iter().map(hex).collect::<Vec<_>>(), "pi": pi.map(|p| hex(&p)), "wiring": wiring}),
+                    );
+                } else {
+                    run.outcome("general-gate:row-as-documented");
+                }
+                // M1 on the snapshot agrees with the documented relation
+                let v = [vals[wiring[0]], vals[wiring[1]], vals[wiring[2]], vals[wiring[3]]];
+                let rel = relation(&q, pi.unwrap_or(zero()), &v) == zero();
+                if m1::decide_self(&s).satisfied() != rel {
+                    run.violation("general-gate/model-vs-relation", "row model and documented relation disagree", json!({"q": q.iter().map(hex).collect::<Vec<_>>()}));
+                }
+                run.nontrivial(fnv(format!("{:?}{:?}{:?}", q, pi, wiring).as_bytes()));
+            }
+        }
+    }
+    run.states += layouts.len() as u64;
+
+    // prover replay: one satisfied and one violated assignment per tuple
+    let pp = crate::setup::pp(64);
+    let items: Vec<([Fe; 6], Option<Fe>, [usize; 4])> = tuples
+        .iter()
+        .enumerate()
+        .map(|(i, q)| (*q, pis[i % 3], WIRINGS[if tier == Tier::Quick { 0 } else { i % 5 }]))
+        .collect();
+    let outs = crate::par::par_map(&items, |(q, pi, wiring)| {
+        let (q, pi, wiring) = (*q, *pi, *wiring);
+        let mk = move |v: [Fe; 4]| {
+            Prog::new(move |c| {
+                let ws: Vec<Witness> = v.iter().map(|x| c.append_witness(*x)).collect();
+                let w = [ws[wiring[0]], ws[wiring[1]], ws[wiring[2]], ws[wiring[3]]];
+                c.append_gate(constraint(&q, pi, w));
+                Ok(())
+            })
+        };
+        let base = [fe(3), fe(5), fe(7), fe(11)];
+        // try to solve for the c slot (index 2 of the slots) when it is wired independently
+        let mut v = base;
+        let eff = |v: &[Fe; 4]| [v[wiring[0]], v[wiring[1]], v[wiring[2]], v[wiring[3]]];
+        if q[3] != zero() && wiring == [0, 1, 2, 3] {
+            let mut e = eff(&v);
+            e[2] = zero();
+            let rest = relation(&q, pi.unwrap_or(zero()), &e);
+            v[2] = -rest * inv(q[3]);
+        }
+        let keys = Compiler::compile_with_circuit(&pp, b"c08", &mk(base)).expect("compile");
+        let snap0 = mk(base).run().unwrap();
+        let keys: rows::Keys = std::sync::Arc::new((keys.0, keys.1, snap0));
+        let mut res = vec![];
+        for cand in [v, [v[0], v[1], v[2] + one(), v[3] + one()]] {
+            let inst = mk(cand);
+            let (real, _) = rows::run_real(&keys, &inst, 3);
+            let rel = relation(&q, pi.unwrap_or(zero()), &eff(&cand)) == zero();
+            res.push((rel, real));
+        }
+        res
+    });
+    let mut sat = 0;
+    let mut unsat = 0;
+    for ((q, pi, wiring), o) in items.iter().zip(outs) {
+        match o {
+            Err(p) => run.machinery(format!("general gate replay panicked: {}", p)),
+            Ok(res) => {
+                for (rel, real) in res {
+                    run.traces_validated += 1;
+                    run.transitions += 1;
+                    run.evaluations += 1;
+                    if rel {
+                        sat += 1
+                    } else {
+                        unsat += 1
+                    }
+                    let ok = matches!((&real, rel), (Real::Accepted, true) | (Real::Unsatisfied, false));
+                    if !ok {
+                        run.violation(
+                            &format!("general-gate/relation-{}-real-{}", if rel { "holds" } else { "fails" }, format!("{:?}", real).split('(').next().unwrap()),
+                            &format!("documented relation {} but prover/verifier gave {:?}", if rel { "holds" } else { "fails" }, real),
+                            json!({"q": q.iter().map(hex).collect::<Vec<_>>(), "pi": pi.map(|p| hex(&p)), "wiring": wiring}),
+                        );
+                    }
+                }
+            }
+        }
+    }
+    run.gate("general gate: satisfied and violated replays", sat > 0 && unsat > 0);
+    run.outcome_n("general-gate:prover-satisfied", sat);
+    run.outcome_n("general-gate:prover-unsatisfied", unsat);
+}
+
+fn sel_constraint(q: [i64; 6], ins: &[Witness]) -> Constraint {
+    let z = Composer::ZERO;
+    let w = |i: usize| if i < ins.len() { ins[i] } else { z };
+    Constraint::new().mult(fi(q[0])).left(fi(q[1])).right(fi(q[2])).output(fi(q[3])).fourth(fi(q[4])).constant(fi(q[5])).a(w(0)).b(w(1)).d(w(2))
+}
+
+pub fn cases(tier: Tier) -> Vec<GCase> {
+    let fs = alphabet_fs(seed());
+    let small: Vec<Fe> = tier.pick(fs.iter().take(8).cloned().collect(), fs.clone());
+    let mut out = vec![];
+    let rho = Rho::new(seed(), 81).next_fe();
+    let mut push = |g: Gadget, e: Expect, class: &str| {
+        let mut c = GCase::new(g, e, class);
+        c.bound2 = true;
+        out.push(c);
+    };
+    // gate_add / gate_mul / append_evaluated_output
+    let tuples: Vec<[i64; 6]> = vec![[0, 1, 1, 0, 0, 0], [0, 1, -1, 0, 2, 3], [1, 0, 0, 0, 0, 0], [1, 0, 0, 0, 1, 5], [1, 2, 3, 0, -1, 7]];
+    for (ti, t) in tuples.iter().enumerate() {
+        for a in &small {
+            for b in small.iter().take(5) {
+                let d = rho;
+                let t = *t;
+                for (pi, ptag) in [(None, "nopi"), (Some(fe(9)), "pi")] {
+                    let piv = pi.unwrap_or(zero());
+                    let body = fi(t[0]) * a * b + fi(t[1]) * a + fi(t[2]) * b + fi(t[4]) * d + fi(t[5]) + piv;
+                    for (name, is_mul) in [("gate_add", false), ("gate_mul", true)] {
+                        let g = Gadget::new(&format!("{}/t{}/{}", name, ti, ptag), vec![*a, *b, d], move |c, ins| {
+                            let mut s = sel_constraint(t, ins);
+                            if let Some(p) = pi {
+                                s = s.public(p);
+                            }
+                            Ok(vec![if is_mul { c.gate_mul(s) } else { c.gate_add(s) }])
+                        });
+                        push(g, Expect::Sat(vec![body]), name);
+                    }
+                    // append_evaluated_output with q_O in {1, -1, 2, 0}
+                    for qo in [1i64, -1, 2, 0] {
+                        let g = Gadget::new(&format!("evaluated_output/t{}/qo{}/{}", ti, qo, ptag), vec![*a, *b, d], move |c, ins| {
+                            let mut s = sel_constraint(t, ins).output(fi(qo));
+                            if let Some(p) = pi {
+                                s = s.public(p);
+                            }
+                            Ok(match c.append_evaluated_output(s) {
+                                Some(w) => vec![w],
+                                None => vec![],
+                            })
+                        });
+                        let e = if qo != 0 {
+                            Expect::Sat(vec![-body * inv(fi(qo))])
+                        } else if body == zero() {
+                            // no output; the row enforces the polynomial on the inputs
+                            Expect::Sat(vec![])
+                        } else {
+                            Expect::Unsat
+                        };
+                        push(g, e, &format!("append_evaluated_output/qo{}", qo));
+                    }
+                }
+            }
+        }
+    }
+    // assert_equal, assert_equal_constant, append_constant, append_public, boolean
+    for a in &small {
+        for b in &small {
+            let (a, b) = (*a, *b);
+            let g = Gadget::new("assert_equal", vec![a, b], |c, ins| {
+                c.assert_equal(ins[0], ins[1]);
+                Ok(vec![])
+            });
+            push(g, if a == b { Expect::Sat(vec![]) } else { Expect::Unsat }, "assert_equal");
+            for (pi, ptag) in [(None, "nopi"), (Some(zero()), "pi0"), (Some(fe(4)), "pi4")] {
+                let g = Gadget::new(&format!("assert_equal_constant/{}", ptag), vec![a, b], move |c, ins| {
+                    c.assert_equal_constant(ins[0], b, pi);
+                    Ok(vec![])
+                });
+                let holds = a == b + pi.unwrap_or(zero());
+                push(g, if holds { Expect::Sat(vec![]) } else { Expect::Unsat }, "assert_equal_constant");
+            }
+        }
+        let a = *a;
+        push(Gadget::new("append_constant", vec![], move |c, _| Ok(vec![c.append_constant(a)])), Expect::Sat(vec![a]), "append_constant");
+        push(Gadget::new("append_public", vec![], move |c, _| Ok(vec![c.append_public(a)])), Expect::Sat(vec![a]), "append_public");
+        let g = Gadget::new("component_boolean", vec![a], |c, ins| {
+            c.component_boolean(ins[0]);
+            Ok(vec![])
+        });
+        push(g, if a == zero() || a == one() { Expect::Sat(vec![]) } else { Expect::Unsat }, "component_boolean");
+    }
+    // selects: bit over the alphabet (incl. non-boolean), values over a smaller one
+    for bit in &small {
+        for a in small.iter().take(6) {
+            for b in small.iter().rev().take(4) {
+                let (bit, a, b) = (*bit, *a, *b);
+                push(
+                    Gadget::new("component_select", vec![bit, a, b], |c, ins| Ok(vec![c.component_select(ins[0], ins[1], ins[2])])),
+                    Expect::Sat(vec![bit * a + (one() - bit) * b]),
+                    "component_select",
+                );
+            }
+            let (bit, a) = (*bit, *a);
+            push(
+                Gadget::new("component_select_one", vec![bit, a], |c, ins| Ok(vec![c.component_select_one(ins[0], ins[1])])),
+                Expect::Sat(vec![one() - bit + bit * a]),
+                "component_select_one",
+            );
+            push(
+                Gadget::new("component_select_zero", vec![bit, a], |c, ins| Ok(vec![c.component_select_zero(ins[0], ins[1])])),
+                Expect::Sat(vec![bit * a]),
+                "component_select_zero",
+            );
+        }
+    }
+    out
+}
+
+pub fn main(tier: Tier, replay: Option<serde_json::Value>) -> i32 {
+    let mut run = Run::new("C08", tier, "model_checking");
+    run.rule = "(i) append_gate over all selector tuples x {no PI, PI=0, PI=rho} x 5 wirings: emitted row equals the documented row (selectors kept, q_arith=1, PI row recorded even when zero) and the row model agrees with the documented relation; one satisfied and one violated assignment per tuple replayed on the real prover; (ii) every named component over input tuples from F_s: honest assignment + all bound-1 and bound-2 deviations through the real generator decided by M1; predicate: satisfiable iff the documented relation holds and every satisfying assignment returns the spec value".into();
+    let cs = cases(tier);
+    let cache = ConfirmCache::new(crate::setup::pp(64));
+    if let Some(r) = replay {
+        return crate::gadget::replay(run, &cs, &cache, &r);
+    }
+    general_gate(&mut run, tier);
+    let names: Vec<String> = cs.iter().map(|c| c.g.name.clone()).collect();
+    let reps = crate::par::par_map(&cs, |c| run_case(c, &cache));
+    absorb(&mut run, reps, &names);
+    run.gate("honest satisfiable cases", run.count("honest:sat") > 0);
+    run.gate("precondition-violating cases", run.count("honest:unsat") > 0);
+    run.gate("deviations explored", run.count("deviations") > 1000);
+    run.assumptions = vec![
+        "M1 row model (bound to the prover by C05) decides satisfiability of deviations".into(),
+        "documented relations are transcribed from the rustdoc of each component".into(),
+        "witness values from F_s; selector tuples over {0,1,-1}(,2)".into(),
+    ];
+    run.finish()
 }
